@@ -37,6 +37,10 @@ type sessCase struct {
 	Steps  []step     `json:"steps"`
 	Seg    string     `json:"seg"`              // frame3 | frame1 | chunks
 	Chunks []int      `json:"chunks,omitempty"` // record sizes, cycled (seg=chunks)
+	// Abort: the agent disconnects by closing its socket at once (unread input makes
+	// that a TCP reset, which may destroy what it sent last); otherwise it shuts down
+	// its sending side and waits for the listener to close.
+	Abort bool `json:"abort,omitempty"`
 }
 
 var localV4 = [][]byte{{192, 0, 2, 10}, {198, 51, 100, 77}}
@@ -82,6 +86,7 @@ type connState struct {
 	inv       *invocation // resolved for single-member groups
 	expect    []byte      // bytes the service must read
 	back      []byte      // bytes the agent must get back
+	greeting  []byte
 	swOff     int
 	planKey   string
 }
@@ -200,7 +205,7 @@ func runSession(c sessCase) error {
 		p := plan{readBuf: cs.ReadBuf, delay: time.Duration(cs.DelayMs) * time.Millisecond}
 		if single(i) && cs.Greeting > 0 {
 			p.greeting = stream(100+i, 0, cs.Greeting)
-			st.back = append(st.back, p.greeting...)
+			st.greeting = p.greeting
 			st.swOff = cs.Greeting
 		}
 		st.planKey = connKey("tcp", st.l.String(), st.r.String())
@@ -423,6 +428,7 @@ func runSession(c sessCase) error {
 			}
 			g := groups[st.root]
 			st.announced, st.open = true, true
+			st.back = append(st.back, st.greeting...) // the service writes it at accept
 			g.members = append(g.members, s.C)
 			nopen := 0
 			for _, m := range g.members {
@@ -618,17 +624,38 @@ func runSession(c sessCase) error {
 		return failf("session-broken", "the listener's frame stream ended or became undecodable before the agent disconnected: %v", err)
 	}
 	a.mu.Unlock()
-	// agent disconnect
-	disconnected = true
-	a.c.Close()
-
-	// every announced connection must have been surfaced and must end now
 	want := map[string]int{}
 	for _, st := range conns {
 		if st.announced {
 			want[st.planKey]++
 		}
 	}
+	// agent disconnect
+	if c.Abort {
+		// what the listener has not read yet may be lost with the reset, so only what
+		// is known to have been handled can be demanded afterwards: wait until every
+		// announcement has been surfaced, then expect prefixes
+		ok := twice(func(d time.Duration) bool {
+			return world.waitFor(d, func() bool {
+				for k, n := range want {
+					if len(findInv(k)) < n {
+						return false
+					}
+				}
+				return true
+			})
+		})
+		if !ok {
+			return failf("not-surfaced", "an announced connection was not handed to a service within %v", waitFirst+waitSecond)
+		}
+		disconnected = true
+		a.c.Close()
+	} else {
+		disconnected = true
+		a.tcp.CloseWrite()
+	}
+
+	// every announced connection must have been surfaced and must end now
 	ok := twice(func(d time.Duration) bool {
 		return world.waitFor(d, func() bool {
 			for k, n := range want {
@@ -645,7 +672,19 @@ func runSession(c sessCase) error {
 			return true
 		})
 	})
-	a.waitFor(5*time.Second, func() bool { return a.rdone })
+	if !c.Abort {
+		// the listener ends the session by closing the transport
+		if !twice(func(d time.Duration) bool { return a.waitFor(d, func() bool { return a.rdone }) }) {
+			return failf("session-not-ended", "the listener did not close the session within %v of the agent's orderly disconnect", waitFirst+waitSecond)
+		}
+		a.c.Close()
+	} else {
+		a.waitFor(5*time.Second, func() bool { return a.rdone })
+	}
+	same := bytes.Equal
+	if c.Abort {
+		same = func(got, exp []byte) bool { return bytes.HasPrefix(exp, got) }
+	}
 	world.mu.Lock()
 	defer world.mu.Unlock()
 	if !ok {
@@ -723,7 +762,7 @@ func runSession(c sessCase) error {
 		for _, m := range g.members {
 			exp = append(exp, conns[m].expect)
 		}
-		if !matchPerm(exp, invs) {
+		if !matchPerm(exp, invs, same) {
 			if len(g.members) == 1 && len(invs) == 1 {
 				m := g.members[0]
 				got, exp0 := invs[0].data, exp[0]
@@ -793,7 +832,7 @@ func isClosedErr(err error) bool {
 }
 
 // matchPerm: is there a bijection between expected streams and invocations?
-func matchPerm(exp [][]byte, invs []*invocation) bool {
+func matchPerm(exp [][]byte, invs []*invocation, same func(got, exp []byte) bool) bool {
 	if len(exp) != len(invs) {
 		return false
 	}
@@ -804,7 +843,7 @@ func matchPerm(exp [][]byte, invs []*invocation) bool {
 			return true
 		}
 		for j, inv := range invs {
-			if !used[j] && bytes.Equal(inv.data, exp[i]) {
+			if !used[j] && same(inv.data, exp[i]) {
 				used[j] = true
 				if rec(i + 1) {
 					return true
